@@ -381,6 +381,406 @@ def inline_callable_aliases(fn):
     return fn
 
 
+
+_PURE_BUILTINS = {'len', 'abs', 'int', 'max', 'min', 'sum', 'str', 'bool', 'float', 'round', 'sorted', 'tuple', 'list', 'set', 'any', 'all',
+                  'isinstance', 'hasattr', 'getattr', 'range', 'enumerate', 'zip', 'frozenset', 'dict', 'divmod', 'repr'}
+_MUTATORS = {'append', 'extend', 'insert', 'pop', 'remove', 'clear', 'sort', 'reverse', 'update', 'add', 'discard', 'setdefault', 'popitem'}
+
+
+def normalise_properties(trees):
+    """Read-only @property getters whose body is `return E` with E a pure expression of `self`.
+       * materialised  (self.f = E  placed after every store to an attribute E reads) when E reads only plain attributes of
+         self that are assigned nowhere but in the class's own methods and are never mutated in place: the stored attribute
+         then always equals what the getter would return, and the analyses keep seeing an attribute;
+       * otherwise inlined at every read  x.f  whose receiver x is a name / attribute chain (the getter is evaluated at the
+         read: exactly Python's semantics), provided the name f is unambiguous in the package.
+       Returns the names of properties that could be handled in neither way (reads of them leave the fragment)."""
+    props = {}                      # name -> [(class node, FunctionDef, E)]
+    other_defs = set()              # attribute names stored / defined elsewhere
+    for tree in trees.values():
+        for cls in [n for n in ast.walk(tree) if isinstance(n, ast.ClassDef)]:
+            for m in cls.body:
+                if not isinstance(m, ast.FunctionDef):
+                    continue
+                decs = [ast.unparse(d) for d in m.decorator_list]
+                if any(d in ('property', 'functools.cached_property', 'cached_property') for d in decs):
+                    body = [b for b in m.body if not (isinstance(b, ast.Expr) and isinstance(b.value, ast.Constant))]
+                    e = body[0].value if (len(body) == 1 and isinstance(body[0], ast.Return) and body[0].value is not None and len(m.args.args) == 1
+                                          and decs == ['property']) else None
+                    props.setdefault(m.name, []).append((cls, m, e))
+                elif any(d.endswith('.setter') or d.endswith('.deleter') for d in decs):
+                    props.setdefault(m.name, []).append((cls, m, None))
+    if not props:
+        return set()
+    for tree in trees.values():
+        for n in ast.walk(tree):
+            if isinstance(n, ast.Attribute) and isinstance(n.ctx, (ast.Store, ast.Del)):
+                other_defs.add(n.attr)
+            if isinstance(n, ast.ClassDef):
+                for m in n.body:
+                    if isinstance(m, ast.FunctionDef) and not any(ast.unparse(d) == 'property' for d in m.decorator_list):
+                        other_defs.add(m.name)
+                    if isinstance(m, (ast.Assign, ast.AnnAssign)):
+                        for t in (m.targets if isinstance(m, ast.Assign) else [m.target]):
+                            if isinstance(t, ast.Name):
+                                other_defs.add(t.id)
+    unsupported = set()
+    good = {}
+    for name, defs in props.items():
+        if len(defs) != 1 or defs[0][2] is None or name in other_defs:
+            unsupported.add(name)
+            continue
+        cls, m, e = defs[0]
+        sname = m.args.args[0].arg
+        bound = {g.id for c in ast.walk(e) if isinstance(c, ast.comprehension) for g in ast.walk(c.target) if isinstance(g, ast.Name)}
+        bound |= {a.arg for l in ast.walk(e) if isinstance(l, ast.Lambda) for a in l.args.args}
+        ok = True
+        for x in ast.walk(e):
+            if isinstance(x, ast.Name) and x.id != sname and x.id not in bound and x.id not in _PURE_BUILTINS and not x.id[:1].isupper():
+                ok = False            # a module-level helper or global: not known to be pure  (Capitalised: enum / class constant)
+            if isinstance(x, ast.Call) and isinstance(x.func, ast.Attribute) and not (isinstance(x.func.value, ast.Name) and x.func.value.id in ('np', 'math')) \
+                    and x.func.attr not in ('get', 'keys', 'values', 'items', 'lower', 'upper', 'strip', 'count', 'index', 'startswith', 'endswith', 'format', 'join', 'split'):
+                ok = False            # a method call on something: may have effects
+            if isinstance(x, (ast.NamedExpr, ast.Yield, ast.YieldFrom, ast.Await)):
+                ok = False
+        if not ok:
+            unsupported.add(name)
+            continue
+        good[name] = (cls, m, e, sname)
+    # properties that read other properties: substitute (dependency order, bounded)
+    for _ in range(4):
+        for name, (cls, m, e, sname) in list(good.items()):
+            class Sub(ast.NodeTransformer):
+                def visit_Attribute(self, n):
+                    self.generic_visit(n)
+                    if isinstance(n.ctx, ast.Load) and n.attr in good and n.attr != name and isinstance(n.value, ast.Name) and n.value.id == sname:
+                        return _subst_self(good[n.attr][2], good[n.attr][3], n.value)
+                    return n
+            good[name] = (cls, m, Sub().visit(e), sname)
+
+    def deps_of(e, sname):
+        d = set()
+        plain = True
+        for x in ast.walk(e):
+            if isinstance(x, ast.Attribute) and isinstance(x.value, ast.Name) and x.value.id == sname:
+                d.add(x.attr)
+        # every use of self must be  self.attr  used as a scalar (no deeper path, no subscript, no call on it)
+        parents = {}
+        for x in ast.walk(e):
+            for c in ast.iter_child_nodes(x):
+                parents[c] = x
+        for x in ast.walk(e):
+            if isinstance(x, ast.Name) and x.id == sname:
+                par = parents.get(x)
+                if not (isinstance(par, ast.Attribute) and par.value is x):
+                    plain = False
+                else:
+                    gp = parents.get(par)
+                    if isinstance(gp, (ast.Attribute, ast.Subscript)) and getattr(gp, 'value', None) is par:
+                        plain = False
+                    if isinstance(gp, ast.Call) and gp.func is par:
+                        plain = False
+        return d, plain
+
+    materialised = {}
+    for name, (cls, m, e, sname) in good.items():
+        d, plain = deps_of(e, sname)
+        if not plain or not d:
+            continue
+        if isinstance(e, (ast.Compare, ast.BoolOp)) or (isinstance(e, ast.UnaryOp) and isinstance(e.op, ast.Not)) \
+                or (isinstance(e, ast.Call) and isinstance(e.func, ast.Name) and e.func.id in ('hasattr', 'isinstance', 'bool')):
+            continue                  # a predicate: inlined, so that the rules see the test itself
+        fine = True
+        for tree in trees.values():
+            own_nodes = set()
+            for c in ast.walk(tree):
+                if c is cls:
+                    for mm in c.body:
+                        if isinstance(mm, ast.FunctionDef) and mm.args.args:
+                            s0 = mm.args.args[0].arg
+                            for y in ast.walk(mm):
+                                if isinstance(y, ast.Attribute) and isinstance(y.value, ast.Name) and y.value.id == s0:
+                                    own_nodes.add(id(y))
+            for y in ast.walk(tree):
+                if isinstance(y, ast.Attribute) and y.attr in d:
+                    if isinstance(y.ctx, (ast.Store, ast.Del)) and id(y) not in own_nodes:
+                        fine = False              # assigned from outside the class
+                if isinstance(y, ast.Call) and isinstance(y.func, ast.Attribute) and y.func.attr in _MUTATORS and isinstance(y.func.value, ast.Attribute) and y.func.value.attr in d:
+                    fine = False                  # mutated in place
+                if isinstance(y, ast.Subscript) and isinstance(y.ctx, (ast.Store, ast.Del)) and isinstance(y.value, ast.Attribute) and y.value.attr in d:
+                    fine = False
+                if isinstance(y, ast.Call) and isinstance(y.func, ast.Name) and y.func.id in ('setattr', 'delattr', 'vars'):
+                    fine = False
+            if not fine:
+                break
+        if not fine:
+            continue
+        init = next((mm for mm in cls.body if isinstance(mm, ast.FunctionDef) and mm.name == '__init__'), None)
+        init_defined = set()
+        if init is not None and init.args.args:
+            s0 = init.args.args[0].arg
+            for st in init.body:
+                for t in _store_targets(st):
+                    if isinstance(t, ast.Attribute) and isinstance(t.value, ast.Name) and t.value.id == s0:
+                        init_defined.add(t.attr)
+        placed = [0]
+
+        def place(block, s0, have, is_init, top):
+            i = 0
+            while i < len(block):
+                st = block[i]
+                hit = [t.attr for t in _store_targets(st) if isinstance(t, ast.Attribute) and isinstance(t.value, ast.Name) and t.value.id == s0 and t.attr in d]
+                for fld in ('body', 'orelse', 'finalbody', 'handlers'):
+                    sub = getattr(st, fld, None)
+                    if isinstance(sub, list) and sub and isinstance(sub[0], ast.stmt):
+                        place(sub, s0, set(have), is_init, False)
+                    elif isinstance(sub, list):
+                        for h in sub:
+                            if isinstance(h, ast.ExceptHandler):
+                                place(h.body, s0, set(have), is_init, False)
+                if hit:
+                    if top or not is_init:
+                        have |= set(hit)
+                    if d <= (have | set(hit)):
+                        new = ast.Assign(targets=[ast.Attribute(value=ast.Name(id=s0, ctx=ast.Load()), attr=name, ctx=ast.Store())], value=_subst_self(e, sname, ast.Name(id=s0, ctx=ast.Load())))
+                        ast.copy_location(new, st)
+                        ast.fix_missing_locations(new)
+                        block.insert(i + 1, new)
+                        placed[0] += 1
+                        i += 1
+                i += 1
+        for mm in cls.body:
+            if isinstance(mm, ast.FunctionDef) and mm is not m and mm.args.args and not any(ast.unparse(dd) in ('staticmethod', 'classmethod') for dd in mm.decorator_list):
+                is_init = mm.name == '__init__'
+                place(mm.body, mm.args.args[0].arg, set() if is_init else set(init_defined), is_init, True)
+        if placed[0]:
+            cls.body.remove(m)
+            materialised[name] = True
+    # the rest: inline at reads
+    inl = {n_: v for n_, v in good.items() if n_ not in materialised}
+    if inl:
+        def simple(x):
+            return isinstance(x, ast.Name) or (isinstance(x, ast.Attribute) and simple(x.value))
+
+        class Inl(ast.NodeTransformer):
+            def visit_Attribute(self, n):
+                self.generic_visit(n)
+                if isinstance(n.ctx, ast.Load) and n.attr in inl:
+                    if not simple(n.value):
+                        unsupported.add(n.attr)
+                        return n
+                    cls, m, e, sname = inl[n.attr]
+                    new = _subst_self(e, sname, n.value)
+                    ast.copy_location(new, n)
+                    for y in ast.walk(new):
+                        ast.copy_location(y, n)
+                    return new
+                return n
+        for tree in trees.values():
+            Inl().visit(tree)
+            ast.fix_missing_locations(tree)
+        for n_, (cls, m, e, sname) in inl.items():
+            if n_ not in unsupported and m in cls.body:
+                cls.body.remove(m)
+    return unsupported
+
+
+def normalise_optional_attributes(trees):
+    """`self.a = None` in __init__ + `x.a is (not) None` tests  ->  no initial store + `(not) hasattr(x, 'a')`: the optional
+    attribute idiom the repository itself uses (and the rules know).  Only when every other store to .a assigns something
+    that is not syntactically None-able, and .a is never truth-tested or read through getattr."""
+    cands = {}
+    for tree in trees.values():
+        for cls in [n for n in ast.walk(tree) if isinstance(n, ast.ClassDef)]:
+            init = next((m for m in cls.body if isinstance(m, ast.FunctionDef) and m.name == '__init__' and m.args.args), None)
+            if init is None:
+                continue
+            s0 = init.args.args[0].arg
+            for st in init.body:
+                if isinstance(st, ast.Assign) and len(st.targets) == 1 and isinstance(st.targets[0], ast.Attribute) and isinstance(st.targets[0].value, ast.Name) \
+                        and st.targets[0].value.id == s0 and isinstance(st.value, ast.Constant) and st.value.value is None:
+                    cands.setdefault(st.targets[0].attr, []).append((init, st))
+    cands = {a: v[0] for a, v in cands.items() if len(v) == 1}
+    if not cands:
+        return
+    bad = set()
+    tests = {}
+    for tree in trees.values():
+        parents = {}
+        for x in ast.walk(tree):
+            for c in ast.iter_child_nodes(x):
+                parents[c] = x
+        for x in ast.walk(tree):
+            if isinstance(x, ast.ClassDef):
+                for m in x.body:
+                    if isinstance(m, ast.FunctionDef) and m.name in cands:
+                        bad.add(m.name)
+            if isinstance(x, ast.Call) and isinstance(x.func, ast.Name) and x.func.id in ('getattr', 'setattr', 'delattr', 'vars') :
+                for a in x.args[1:2]:
+                    if isinstance(a, ast.Constant) and a.value in cands:
+                        bad.add(a.value)
+                if x.func.id == 'vars':
+                    bad |= set(cands)
+            if not (isinstance(x, ast.Attribute) and x.attr in cands):
+                continue
+            a = x.attr
+            par = parents.get(x)
+            if isinstance(x.ctx, ast.Del):
+                bad.add(a)
+            elif isinstance(x.ctx, ast.Store):
+                if isinstance(par, ast.Assign) and par is cands[a][1]:
+                    continue
+                v = par.value if isinstance(par, (ast.Assign, ast.AnnAssign)) and x in _store_targets(par) else None
+                fn_ = par
+                while fn_ is not None and not isinstance(fn_, (ast.FunctionDef, ast.Lambda)):
+                    fn_ = parents.get(fn_)
+                if v is None or not _never_none(v, fn_):
+                    bad.add(a)
+            else:
+                if isinstance(par, ast.Compare) and par.left is x and len(par.ops) == 1 and isinstance(par.ops[0], (ast.Is, ast.IsNot, ast.Eq, ast.NotEq)) \
+                        and isinstance(par.comparators[0], ast.Constant) and par.comparators[0].value is None:
+                    tests.setdefault(a, []).append((par, parents.get(par)))
+                elif isinstance(par, (ast.If, ast.While, ast.IfExp)) and par.test is x:
+                    bad.add(a)
+                elif isinstance(par, ast.BoolOp) or (isinstance(par, ast.UnaryOp) and isinstance(par.op, ast.Not)):
+                    bad.add(a)
+                elif isinstance(par, ast.Compare) and any(isinstance(c, ast.Constant) and c.value is None for c in [par.left] + par.comparators):
+                    bad.add(a)
+    todo = {a for a in cands if a not in bad and tests.get(a)}
+    if not todo:
+        return
+
+    class T(ast.NodeTransformer):
+        def visit_Compare(self, n):
+            self.generic_visit(n)
+            if len(n.ops) == 1 and isinstance(n.left, ast.Attribute) and n.left.attr in todo and isinstance(n.comparators[0], ast.Constant) and n.comparators[0].value is None:
+                h = ast.Call(func=ast.Name(id='hasattr', ctx=ast.Load()), args=[n.left.value, ast.Constant(n.left.attr)], keywords=[])
+                new = h if isinstance(n.ops[0], (ast.IsNot, ast.NotEq)) else ast.UnaryOp(op=ast.Not(), operand=h)
+                ast.copy_location(new, n)
+                for y in ast.walk(new):
+                    if not hasattr(y, 'lineno'):
+                        ast.copy_location(y, n)
+                return new
+            return n
+    for tree in trees.values():
+        T().visit(tree)
+        ast.fix_missing_locations(tree)
+    for a in todo:
+        init, st = cands[a]
+        init.body[init.body.index(st)] = ast.copy_location(ast.Pass(), st)
+
+
+def normalise_keyword_calls(trees):
+    """f(a, c=z, b=y)  ->  f(a, y, z)  for calls of package functions / methods whose definition is unique by name: keyword
+    arguments become positional ones in the callee's parameter order, omitted parameters in between get their (constant)
+    default.  Purely syntactic and meaning-preserving; the rules read call sites positionally."""
+    defs = {}
+    for tree in trees.values():
+        for n in tree.body:
+            if isinstance(n, ast.FunctionDef):
+                defs.setdefault(('f', n.name), []).append((n, False))
+            elif isinstance(n, ast.ClassDef):
+                for m in n.body:
+                    if isinstance(m, ast.FunctionDef):
+                        static = any(isinstance(d, ast.Name) and d.id == 'staticmethod' for d in m.decorator_list)
+                        key = ('f', n.name) if m.name == '__init__' else ('m', m.name)
+                        defs.setdefault(key, []).append((m, not static))
+    class_names = {n.name for tree in trees.values() for n in tree.body if isinstance(n, ast.ClassDef)}
+    for tree in trees.values():
+        for c in ast.walk(tree):
+            if not (isinstance(c, ast.Call) and c.keywords) or any(k.arg is None for k in c.keywords) or any(isinstance(a, ast.Starred) for a in c.args):
+                continue
+            if isinstance(c.func, ast.Name):
+                cands = defs.get(('f', c.func.id), [])
+                if c.func.id in class_names and not cands:
+                    continue
+            elif isinstance(c.func, ast.Attribute) and not (isinstance(c.func.value, ast.Name) and c.func.value.id in ('np', 'numpy', 'random', 'os', 'math', 'pulp', 'argparse', 'parser')):
+                cands = defs.get(('m', c.func.attr), [])
+                if ('f', c.func.attr) in defs:
+                    continue
+            else:
+                continue
+            if len(cands) != 1:
+                continue
+            fn, has_self = cands[0]
+            a = fn.args
+            if a.vararg or a.kwarg or a.kwonlyargs or a.posonlyargs:
+                continue
+            params = [p_.arg for p_ in a.args][1 if has_self else 0:]
+            defaults = dict(zip([p_.arg for p_ in a.args][len(a.args) - len(a.defaults):], a.defaults))
+            kws = {k.arg: k.value for k in c.keywords}
+            if not set(kws) <= set(params[len(c.args):]):
+                continue
+            rest = params[len(c.args):]
+            last = max(i for i, p_ in enumerate(rest) if p_ in kws)
+            new = []
+            okay = True
+            for p_ in rest[:last + 1]:
+                if p_ in kws:
+                    new.append(kws[p_])
+                elif p_ in defaults and isinstance(defaults[p_], ast.Constant):
+                    new.append(ast.copy_location(ast.Constant(defaults[p_].value), c))
+                else:
+                    okay = False
+                    break
+            if okay:
+                c.args = list(c.args) + new
+                c.keywords = []
+        ast.fix_missing_locations(tree)
+
+
+def _never_none(v, fn):
+    """is the expression certainly not None?  (literals, arithmetic, conversions, parameters that have no None default
+    and are not re-bound)"""
+    if isinstance(v, ast.Constant):
+        return v.value is not None
+    if isinstance(v, (ast.BinOp, ast.JoinedStr, ast.List, ast.Tuple, ast.Dict, ast.Set, ast.ListComp, ast.Compare)):
+        return True
+    if isinstance(v, ast.Call) and isinstance(v.func, ast.Name) and v.func.id in ('int', 'len', 'float', 'str', 'abs', 'round', 'max', 'min', 'sum', 'bool', 'list', 'tuple'):
+        return True
+    if isinstance(v, ast.Name) and isinstance(fn, ast.FunctionDef):
+        a = fn.args
+        pos = a.posonlyargs + a.args
+        names = [p_.arg for p_ in pos]
+        if v.id in names:
+            i = names.index(v.id)
+            k = i - (len(pos) - len(a.defaults))
+            d = a.defaults[k] if k >= 0 else None
+            if d is not None and not (isinstance(d, ast.Constant) and d.value is not None):
+                return False
+            rebound = any(isinstance(y, ast.Name) and y.id == v.id and isinstance(y.ctx, ast.Store) for y in ast.walk(fn))
+            return not rebound
+    return False
+
+
+def _store_targets(st):
+    out = []
+    if isinstance(st, ast.Assign):
+        ts = st.targets
+    elif isinstance(st, (ast.AugAssign, ast.AnnAssign)):
+        ts = [st.target]
+    else:
+        ts = []
+    for t in ts:
+        if isinstance(t, (ast.Tuple, ast.List)):
+            out.extend(t.elts)
+        else:
+            out.append(t)
+    return out
+
+
+def _subst_self(e, sname, recv):
+    import copy
+    e2 = copy.deepcopy(e)
+
+    class R(ast.NodeTransformer):
+        def visit_Name(self, n):
+            if n.id == sname:
+                return copy.deepcopy(recv)
+            return n
+    return R().visit(e2)
+
+
 class Func:
     def __init__(self, module, cls, node, relpath):
         self.module = module          # dotted module name
@@ -452,6 +852,14 @@ class Repo:
                 self.trees[rel] = tree
                 self.sources[rel] = src
                 self.modname[rel] = rel[:-3].replace(os.sep, '.')
+        try:
+            self.unsupported_properties = normalise_properties(self.trees)
+            normalise_optional_attributes(self.trees)
+            normalise_keyword_calls(self.trees)
+        except RecursionError:
+            raise AnalysisError('property getters are mutually recursive')
+        for rel, tree in self.trees.items():
+            if True:
                 for n in tree.body:
                     if isinstance(n, ast.ClassDef):
                         meths = {}
